@@ -294,6 +294,12 @@ def run_job(job):
     def mk():
         return Explorer(lambda ctx: execute(ctx, seed, script, want, opc), bound=job.get("bound"),
                         cache=not job.get("nocache"), order="dfs", max_exec=cap)
+    if opc:
+        # CPython 3.12 instruments a code object for opcode events lazily, the first time a frame of it sets
+        # f_trace_opcodes; one throw-away execution makes every later execution see the same events
+        w = mk()
+        w.cache = None
+        w.one([])
     determinism_probe(mk)
     ex = mk()
     orders = set()
